@@ -98,6 +98,8 @@ def _run_chunk(binary, lines, env=None, restart_on=3, stall_s=None):
 
         def reader():
             for line in p.stdout:
+                if not line.endswith("\n"):
+                    break          # a reply cut off by the end of the process is not a reply
                 got.append(line.rstrip("\n"))
                 last[0] = time.time()
             done.set()
